@@ -217,6 +217,9 @@ func freshVal(t types.Type, name string, facts *[]*Term) Val {
 		if isUnsigned(t) && facts != nil {
 			*facts = append(*facts, Ge(v, IntT(0)))
 		}
+		if v.Sort == SStr && facts != nil {
+			*facts = append(*facts, Ge(SLen(v), IntT(0)))
+		}
 		return v
 	case kStruct:
 		st := t.Underlying().(*types.Struct)
